@@ -59,7 +59,7 @@ Proof.
   pose proof (built_in_range _ _ Bc). lia.
 Qed.
 
-Lemma cone_ready_step : forall w xs q, no_sum w -> fixed_point w xs -> row_bound w q -> q <= 1 ->
+Lemma cone_ready_step : forall w xs q, no_sum w -> fixed_point w xs -> row_bound_f w q -> q <= 1 ->
   forall t s u s1, cone_ready w xs t s -> evaluate_pass w t (inc_iteration s) = Ok (u, s1) ->
   cone_ready w xs t s1.
 Proof.
@@ -73,7 +73,7 @@ Qed.
 (* 3. Geometric decay over the passes.                                  *)
 
 Lemma decay : forall w xs q E0,
-  no_sum w -> fixed_point w xs -> row_bound w q -> 0 <= q -> q <= 1 -> 0 <= E0 ->
+  no_sum w -> fixed_point w xs -> row_bound_f w q -> 0 <= q -> q <= 1 -> 0 <= E0 ->
   forall t it tolv st v st',
   cone_ready w xs t st -> cone_within w xs t E0 st ->
   evaluate_iterative w t it tolv st = Ok (v, st') ->
@@ -107,7 +107,7 @@ Qed.
 
 (* all [it] passes used *)
 Lemma exhausted : forall w xs q E0,
-  no_sum w -> fixed_point w xs -> row_bound w q -> 0 <= q -> q <= 1 -> 0 <= E0 ->
+  no_sum w -> fixed_point w xs -> row_bound_f w q -> 0 <= q -> q <= 1 -> 0 <= E0 ->
   forall t it tolv st v st',
   cone_ready w xs t st -> cone_within w xs t E0 st ->
   evaluate_iterative w t it tolv st = Ok (v, st') ->
@@ -127,7 +127,7 @@ Qed.
 (* 4. Early stop: the a-posteriori bound.                               *)
 
 Lemma converged : forall w xs q,
-  no_sum w -> fixed_point w xs -> row_bound w q -> 0 <= q -> q < 1 ->
+  no_sum w -> fixed_point w xs -> row_bound_f w q -> 0 <= q -> q < 1 ->
   forall t it tolv st v st',
   cone_ready w xs t st ->
   evaluate_iterative w t it tolv st = Ok (v, st') ->
